@@ -275,3 +275,156 @@ Lemma replace_at_exact :
     node_at d' l = Some x /\
     forall l', (forall k, l' <> l ++ k) -> (forall k, l <> l' ++ k) -> node_at d' l' = node_at d l'.
 Proof. exact PatchCompose.replace_at_exact. Qed.
+
+(* ---------------------------------------------------------------------- *)
+(* The add-like operations on the wider domain: only the tokens leading to the parent need to be
+   standard when the parent is not an array (the last token is used literally as a member name).
+   For an array parent the extension spellings of an index are outside RFC 6902 and the model
+   follows Python's list semantics instead: see the refutations at the end. *)
+
+Lemma add_refines_parent :
+  forall (p : pointer) (v d : json),
+    std_parent p -> parent_not_array (tokens p) d ->
+    refines (Patch.apply [OpAdd p v] d) (rfc_op (RAdd (tokens p) v) d).
+Proof.
+  intros p v d Hp Hna. rewrite apply_single. apply refines_translate. cbn [apply_op rfc_op].
+  apply refines1_of_option. apply add_lrel_parent; auto.
+Qed.
+
+Lemma addne_refines1_parent p v d :
+  std_parent p -> parent_not_array (tokens p) d ->
+  refines1 (apply_addne p v d) (doc_addne (tokens p) v d).
+Proof.
+  intros Hp Hna. destruct (snoc_case p) as [->|[p' [x ->]]].
+  - reflexivity.
+  - pose proof (add_lrel_parent _ v d Hp Hna) as Hadd. apply refines1_of_option in Hadd.
+    rewrite tokens_snoc in *. unfold doc_addne. rewrite last_opt_snoc, removelast_last.
+    unfold rfc_get, rfc_eval.
+    pose proof (std_parent_snoc _ _ Hp) as Hstd. pose proof (parent_not_array_eval _ _ _ Hna) as Hev.
+    pose proof (reduce_std p' Hstd [] d) as Hred.
+    assert (Herr : forall e, resolve_parent (p' ++ [x]) d = Err e ->
+                   apply_addne (p' ++ [x]) v d = apply_add AddStd (p' ++ [x]) v d).
+    { intros e He. unfold apply_addne, apply_add. rewrite He. reflexivity. }
+    destruct (rfc_eval_from [] d (tokens p')) as [[l pv]|] eqn:Ev; cbn [option_map snd].
+    2:{ destruct Hred as [k Hred]. rewrite (Herr (EPointer k)); [exact Hadd|].
+        rewrite resolve_parent_snoc, Hred. reflexivity. }
+    destruct pv as [| b | n | s | xs | ms].
+    5:{ exfalso. exact (Hev l xs Ev). }
+    5:{ destruct (lastres_obj l ms x) as [o Ho].
+        destruct (lookup (part_text x) ms) as [c|] eqn:Hl.
+        - unfold apply_addne. rewrite resolve_parent_snoc, Hred. cbn [bind]. rewrite Ho. cbn [bind].
+          rewrite last_opt_snoc. cbn [rv_json]. unfold dict_has, member_name. rewrite Hl. reflexivity.
+        - assert (E : apply_addne (p' ++ [x]) v d = apply_add AddStd (p' ++ [x]) v d).
+          { unfold apply_addne. rewrite resolve_parent_snoc, Hred. cbn [bind]. rewrite Ho. cbn [bind].
+            rewrite last_opt_snoc. cbn [rv_json]. unfold dict_has, member_name. rewrite Hl. reflexivity. }
+          rewrite E. exact Hadd. }
+    all: rewrite (Herr (EPointer KPtrType));
+      [exact Hadd | rewrite resolve_parent_snoc, Hred; cbn [bind]; apply lastres_scalar; reflexivity].
+Qed.
+
+Lemma addap_refines1_parent p v d :
+  std_parent p -> parent_not_array (tokens p) d ->
+  refines1 (apply_add AddAp p v d) (doc_addap (tokens p) v d).
+Proof.
+  intros Hp Hna. destruct (snoc_case p) as [->|[p' [x ->]]].
+  - reflexivity.
+  - rewrite tokens_snoc in *.
+    pose proof (std_parent_snoc _ _ Hp) as Hstd. pose proof (parent_not_array_eval _ _ _ Hna) as Hev.
+    pose proof (apply_add_snoc_noarr AddAp p' x v d Hstd Hev) as Hadd. apply refines1_of_option in Hadd.
+    unfold doc_addap. rewrite last_opt_snoc, removelast_last. unfold rfc_get, rfc_eval.
+    pose proof (descent _ (rfc_add_descends v) (tokens p') (part_text x) d) as E. cbv beta in E.
+    destruct (rfc_eval_from [] d (tokens p')) as [[l pv]|] eqn:Ev; cbn [option_map snd].
+    2:{ rewrite E. exact Hadd. }
+    cbn [local_add] in Hadd. unfold local_addap in Hadd.
+    destruct pv; try (rewrite E; exact Hadd). exfalso. exact (Hev _ _ Ev).
+Qed.
+
+Lemma addne_refines_parent :
+  forall (p : pointer) (v d : json),
+    std_parent p -> parent_not_array (tokens p) d ->
+    refines (Patch.apply [OpAddNe p v] d) (doc_addne (tokens p) v d).
+Proof.
+  intros p v d Hp Hna. rewrite apply_single. apply refines_translate. apply addne_refines1_parent; auto.
+Qed.
+
+Lemma addap_refines_parent :
+  forall (p : pointer) (v d : json),
+    std_parent p -> parent_not_array (tokens p) d ->
+    refines (Patch.apply [OpAddAp p v] d) (doc_addap (tokens p) v d).
+Proof.
+  intros p v d Hp Hna. rewrite apply_single. apply refines_translate. apply addap_refines1_parent; auto.
+Qed.
+
+(* the full domain of the three theorems: every token standard, or the tokens up to the parent
+   standard and the parent not an array; the std_pointer theorems are the first disjunct *)
+Definition add_domain (p : pointer) (d : json) : Prop :=
+  std_pointer p \/ (std_parent p /\ parent_not_array (tokens p) d).
+
+Lemma std_pointer_add_domain p d : std_pointer p -> add_domain p d.
+Proof. intros H. left. exact H. Qed.
+
+Theorem add_refines_wide :
+  forall (p : pointer) (v d : json),
+    add_domain p d -> refines (Patch.apply [OpAdd p v] d) (rfc_op (RAdd (tokens p) v) d).
+Proof.
+  intros p v d [Hp|[Hp Hna]]; [|apply add_refines_parent; auto].
+  rewrite apply_single. apply refines_translate. apply op_refines1. constructor. exact Hp.
+Qed.
+
+Theorem addne_refines_wide :
+  forall (p : pointer) (v d : json),
+    add_domain p d -> refines (Patch.apply [OpAddNe p v] d) (doc_addne (tokens p) v d).
+Proof. intros p v d [Hp|[Hp Hna]]; [apply addne_refines|apply addne_refines_parent]; auto. Qed.
+
+Theorem addap_refines_wide :
+  forall (p : pointer) (v d : json),
+    add_domain p d -> refines (Patch.apply [OpAddAp p v] d) (doc_addap (tokens p) v d).
+Proof. intros p v d [Hp|[Hp Hna]]; [apply addap_refines|apply addap_refines_parent]; auto. Qed.
+
+(* the cases the seeded regression exercises: member names that look like key tokens, with and
+   without the sibling the token would fall back to *)
+Lemma std_parent_single x : normal_part x -> std_parent [x].
+Proof. intros H. split; [constructor; [exact H|constructor]|reflexivity]. Qed.
+
+Example add_keylike_member_names :
+  let a := [97%N] in let ha := [35%N; 97%N] in let ta := [126%N; 97%N] in
+  let one := JNum (num_of_Z 1) in let two := JNum (num_of_Z 2) in
+  std_parent [PStr ha] /\ ~ std_pointer [PStr ha] /\
+  Patch.apply [OpAdd [PStr ha] two] (JObj [(a, one)]) = Ok (JObj [(a, one); (ha, two)]) /\
+  Patch.apply [OpAdd [PStr ha] two] (JObj []) = Ok (JObj [(ha, two)]) /\
+  Patch.apply [OpAddNe [PStr ta] two] (JObj [(a, one)]) = Ok (JObj [(a, one); (ta, two)]) /\
+  Patch.apply [OpAddNe [PStr ta] two] (JObj [(a, one); (ta, one)]) = Ok (JObj [(a, one); (ta, one)]) /\
+  Patch.apply [OpAddAp [PStr ha] two] (JObj [(a, one)]) = Ok (JObj [(a, one); (ha, two)]).
+Proof.
+  cbv zeta. split; [apply std_parent_single; vm_compute; reflexivity|].
+  split; [intros [_ H]; vm_compute in H; discriminate|].
+  repeat split; vm_compute; reflexivity.
+Qed.
+
+(* for an ARRAY parent the wider domain is false: the model follows Python's list semantics for
+   the extension spellings of an index, RFC 6902 says error *)
+Example add_negative_index_refuted :
+  let one := JNum (num_of_Z 1) in let two := JNum (num_of_Z 2) in let nine := JNum (num_of_Z 9) in
+  std_parent [PInt (-1)] /\
+  Patch.apply [OpAdd [PInt (-1)] nine] (JArr [one; two]) = Ok (JArr [one; nine; two]) /\
+  rfc_op (RAdd (tokens [PInt (-1)]) nine) (JArr [one; two]) = OError /\
+  Patch.apply [OpAddNe [PInt (-1)] nine] (JArr [one; two]) = Ok (JArr [one; nine; two]) /\
+  doc_addne (tokens [PInt (-1)]) nine (JArr [one; two]) = OError.
+Proof.
+  cbv zeta. split; [apply std_parent_single; vm_compute; reflexivity|].
+  repeat split; vm_compute; reflexivity.
+Qed.
+
+Example addap_extension_index_refuted :
+  let one := JNum (num_of_Z 1) in let nine := JNum (num_of_Z 9) in
+  let h5 := PStr [35%N; 53%N] in
+  std_parent [h5] /\ std_parent [PInt (-5)] /\
+  Patch.apply [OpAddAp [h5] nine] (JArr [one]) = Ok (JArr [one; nine]) /\
+  doc_addap (tokens [h5]) nine (JArr [one]) = OError /\
+  Patch.apply [OpAddAp [PInt (-5)] nine] (JArr [one]) = Ok (JArr [one; nine]) /\
+  doc_addap (tokens [PInt (-5)]) nine (JArr [one]) = OError.
+Proof.
+  cbv zeta. split; [apply std_parent_single; vm_compute; reflexivity|].
+  split; [apply std_parent_single; vm_compute; reflexivity|].
+  repeat split; vm_compute; reflexivity.
+Qed.
